@@ -20,15 +20,17 @@ LEVEL_TEXT = ('static analysis: (D1+D2) skgenome.intersect.idx_ranges is abstrac
               ' every combination of mode (outer, inner) x starts given/None x ends given/None x ends monotone / nested that set must equal the '
               'half-open predicates (outer: end > qs and start < qe; inner: start >= qs and end <= qe); a result obtained by bisecting the `end` '
               'column when ends are not monotone is a violation (rows nested in a longer row would be lost); (D3) positions from idx_ranges are '
-              'consumed by .iloc only, index labels from iter_slices by .loc / Series getitem only; (D4) every return of into_ranges is a Series '
-              "(never the `dest` frame), built from iter_slices(source, dest, 'outer', keep_empty=True), and the per-range value is default / the"
-              ' value / summary(str -> join_strings, float -> nanmedian, else first_of, non-callable -> constant); (D5) trim mode clips start '
-              'from below by the query start and end from above by the query end on a copy, other modes return rows unchanged; (D6) '
-              'by_shared_chroms interpreted on 84 literal table pairs: every chromosome of the query table is paired with exactly the other '
-              "table's rows on that chromosome, or with nothing (kept iff keep_empty); (D7) by_ranges (outer / inner / trim) and iter_slices on "
-              'literal tables with chromosomes absent from either side and index labels that are not positions: one result per query range, in '
-              'order, holding exactly the overlapping / contained rows (their labels for iter_slices). Does not decide the row sets of arbitrary '
-              'tables beyond predicate/side agreement (start column sorted is the premise).')
+              'consumed by .iloc only, index labels from iter_slices by .loc / Series getitem only; (D4) into_ranges (function and GenomicArray '
+              'method), interpreted on literal tables with index labels that are not positions, empty source / destination, a chromosome missing '
+              'from the source and a missing column: one value per destination row, labelled like the destination rows; the per-range value is '
+              'default / the value / summary(str -> join_strings, float -> nanmedian, else first_of, non-callable -> constant), and the default '
+              'combiners do what their names say (join_strings: each distinct string once, in first-seen order); (D5) trim mode clips start from '
+              'below by the query start and end from above by the query end on a copy, other modes return rows unchanged; (D6) by_shared_chroms '
+              "interpreted on 84 literal table pairs: every chromosome of the query table is paired with exactly the other table's rows on that "
+              'chromosome, or with nothing (kept iff keep_empty); (D7) by_ranges (outer / inner / trim) and iter_slices on literal tables with '
+              'chromosomes absent from either side and index labels that are not positions: one result per query range, in order, holding exactly'
+              ' the overlapping / contained rows (clipped to the query range in trim mode) (their labels for iter_slices). Does not decide the '
+              'row sets of arbitrary tables beyond predicate/side agreement (start column sorted is the premise).')
 TECHNIQUE = "abstract interpretation with symbolic sorted columns (searchsorted as counting atoms, masks as predicate sets); index-kind lint; return-kind rule"
 
 IDX = "skgenome.intersect.idx_ranges"
